@@ -436,6 +436,7 @@ type inliner struct {
 	failed   map[string]bool
 	counter  *int
 	doneKeys []string
+	touched  map[*ast.FuncDecl]bool // declarations rewritten in the current round
 	curFile  *ast.File
 	curFunc  *ast.FuncDecl
 	siteOrd  map[string]int
@@ -591,7 +592,14 @@ func (il *inliner) rewriteFile(f *ast.File) int {
 		}
 		il.curFunc = fd
 		il.siteOrd = map[string]int{}
-		n += il.rewriteBlock(fd.Body)
+		k := il.rewriteBlock(fd.Body)
+		if k > 0 {
+			if il.touched == nil {
+				il.touched = map[*ast.FuncDecl]bool{}
+			}
+			il.touched[fd] = true
+		}
+		n += k
 	}
 	return n
 }
@@ -802,7 +810,9 @@ func (il *inliner) findCall(e *ast.Expr) (slot *ast.Expr, call *ast.CallExpr, fn
 			}
 			if g := il.calleeOf(x); g != nil && g.Pkg() == il.pkg && il.cand[g] && il.decls[g] != nil && il.decls[g] != il.curFunc {
 				key := il.siteKey(g)
-				if !il.failed[key] {
+				// a callee whose own body was rewritten in this round holds fresh syntax without type information:
+				// it is expanded in the next round, after the package has been parsed and checked again
+				if !il.failed[key] && !il.touched[il.decls[g]] {
 					slot, call, fn = p, x, g
 					il.doneKeys = append(il.doneKeys, key)
 					return true
